@@ -34,6 +34,7 @@ def check(ck):
     r05_4(ck)
     r05_5(ck)
     r05_6(ck)
+    r05_7(ck)
 
 
 def _loop_of(x, stop):
@@ -531,3 +532,42 @@ def r05_6(ck):
             v.rule = 'R05.6'
     ck.rules.pop('R10.2', None)
     ck.rules.pop('R10.3', None)
+
+
+def r05_7(ck):
+    ck.rule('R05.7', 'what counts as a step: Step.is_step() is True; '
+            'Process.is_step() is False unless a subclass overrides the '
+            'deprecated is_deriver(); removing a step removes it from the '
+            'sequential list or from the graph')
+    st = ck.fn('Step.is_step', 'core.process')
+    rets = [r for r in A.walk_no_nested(st.node) if isinstance(r, ast.Return)]
+    ok = bool(rets) and all(isinstance(r.value, ast.Constant) and
+                            r.value.value is True for r in rets)
+    ck.require(ok, 'R05.7', st, st.node.name, 'Step.is_step returns True',
+               'Step.is_step no longer returns True')
+    ps = ck.fn('Process.is_step', 'core.process')
+    rets = [r for r in A.walk_no_nested(ps.node) if isinstance(r, ast.Return)]
+    consts = [r for r in rets if isinstance(r.value, ast.Constant)]
+    ok = bool(consts) and all(r.value.value is False for r in consts) and \
+        any(isinstance(r.value, ast.Call) and A.call_name(r.value) ==
+            'is_deriver' for r in rets)
+    ck.require(ok, 'R05.7', ps, ps.node.name,
+               'Process.is_step is False by default and defers to an '
+               'overridden is_deriver()',
+               'Process.is_step changed its default / its is_deriver hook')
+    rm = ck.fn('_StepGraph.remove', 'core.engine')
+    cfg = cfg_of(rm.node)
+    p = A.params_of(rm.node)[1]
+    seq = [c for c in A.calls_in(rm.node, 'remove')
+           if '_sequential_steps' in A.unparse(c.func)]
+    ok = bool(seq) and A.is_name(A.arg_of(seq[0], 0), p) and (
+        'in', p, 'self._sequential_steps') in cfg.guards(cfg.node(seq[0]))
+    ck.require(ok, 'R05.7', rm, seq[0] if seq else rm.node.name,
+               'a sequential step is removed from the sequential list',
+               None)
+    rn = [c for c in A.calls_in(rm.node, 'remove_node')]
+    ok = bool(rn) and derives(rm.node, A.arg_of(rn[0], 0),
+                              lambda x: A.is_name(x, p), at=rn[0])
+    ck.require(ok, 'R05.7', rm, rn[0] if rn else rm.node.name,
+               'a graph step is removed from the graph',
+               '_StepGraph.remove no longer removes the step node')
